@@ -188,7 +188,9 @@ def genLongestOpts (F : FlagTable) (run : Run) (needsErr : Bool) (bt : Nat) :
           genLongestOpts F run needsErr bt xs { st with has := true, fres := r.result, fpos := r.pos, last := r }
         else genLongestOpts F run needsErr bt xs { st with last := r }
       else
-        if needsErr && !st.has && farther x.isFail st.ferrpos r.pos then
+        -- the emitted `elif` condition is a *string literal* (always true), so every failing
+        -- option overwrites the remembered error: the last failing option wins
+        if needsErr then
           genLongestOpts F run needsErr bt xs { st with ferr := r.result, ferrpos := r.pos, last := r }
         else genLongestOpts F run needsErr bt xs { st with last := r }
 
